@@ -384,6 +384,12 @@ RESTART:
 	if ph.Header.Height > m.initialHeight {
 		// Only confirm the previous commit proof if we are beyond the genesis height,
 		// as the initial height does not have previous commit proofs.
+		if len(checkResp.PrevValidatorSet.PubKeys) == 0 {
+			// The kernel does not report a previous validator set for the committing view,
+			// so there are no keys to validate the proof against.
+			return tmconsensus.HandleProposedHeaderBadPrevCommitProofPubKeyHash
+		}
+
 		signBitsByHash, allSigsUnique := m.cmspScheme.ValidateFinalizedProof(
 			finProof, hashesBySignContent,
 		)
